@@ -74,6 +74,8 @@ structure Raw where
   working : Data                 -- rows this connection sees (committed + own uncommitted)
   saves : List (Nat × Data)      -- SAVEPOINT stack, innermost first: (name, rows at SAVEPOINT)
   autocommit : Bool              -- isolation_level AUTOCOMMIT in effect on the DBAPI connection
+  follows : Bool                 -- meaningful for idle connections only: no transaction is open,
+                                 -- so at the next checkout it sees whatever is committed by then
 deriving DecidableEq, Repr, Inhabited
 
 structure DB where
@@ -141,7 +143,7 @@ def DB.tick (db : DB) : DB × Nat := ({ db with clock := db.clock + 1 }, db.cloc
 def DB.newRaw (db : DB) : DB :=
   let (db, t) := db.tick
   { db with raw := { rid := db.nextRid, born := t, working := db.committed, saves := [],
-                     autocommit := false },
+                     autocommit := false, follows := false },
             nextRid := db.nextRid + 1 }
 
 /-- `Pool.connect()` for a QueuePool used by one thread: `_do_get` takes the head of the
@@ -154,6 +156,7 @@ def DB.checkout (db : DB) : DB :=
   | some r :: rest =>
     let db := { db with idle := rest }
     if db.invalTime > r.born then db.newRaw             -- recycle: close + connect
+    else if r.follows then { db with raw := { r with working := db.committed, follows := false } }
     else { db with raw := r }
 
 /-- `Pool._invalidate(fairy)`: `if self._invalidate_time < rec.starttime: … = time.time()` -/
@@ -184,7 +187,8 @@ def DB.checkin (db : DB) (transactionWasReset : Bool) : DB :=
   if bad then db
   else
     -- finalize_callback: reset_characteristic (isolation level back to default)
-    let r := { db.raw with autocommit := false }
+    let r := { db.raw with autocommit := false,
+                           follows := decide (db.raw.working = db.committed) && db.raw.saves.isEmpty }
     { db with raw := r, idle := db.idle ++ [some r] }
 
 /-! ## Connection and transaction objects -/
@@ -555,18 +559,26 @@ inductive Op where
   | invalidate
   | arm (p : FPoint) (k : FKind)     -- environment: the next DBAPI call at `p` fails
   | warm (n : Nat)                   -- environment: n other connections are opened, then all returned
-  | connect                          -- a new Connection is checked out (the old one is forgotten)
+  | connect                          -- the old Connection (if still open) is garbage collected,
+                                     -- then a new one is checked out
   | gc                               -- the Connection is garbage collected without close()
   | autocommit                       -- conn.execution_options(isolation_level="AUTOCOMMIT")
 deriving DecidableEq, Repr, Inhabited
 
-/-- n extra raw connections created while ours is held, then returned (clean) in order -/
-def DB.warm : Nat → DB → DB
-  | 0, db => db
-  | n + 1, db =>
-    let (db, t) := db.tick
-    let r : Raw := { rid := db.nextRid, born := t, working := db.committed, saves := [], autocommit := false }
-    DB.warm n { db with nextRid := db.nextRid + 1, idle := db.idle ++ [some r] }
+/-- `[engine.connect() for _ in range(n)]` while ours is held … -/
+def DB.warmTake : Nat → DB → List Raw → DB × List Raw
+  | 0, db, acc => (db, acc)
+  | n + 1, db, acc => let db' := db.checkout; DB.warmTake n db' (acc ++ [db'.raw])
+
+/-- … then `.close()` on each of them in order (no transaction: ordinary reset-on-return) -/
+def DB.warmReturn : List Raw → DB → DB
+  | [], db => db
+  | r :: rs, db => DB.warmReturn rs (({ db with raw := r } : DB).checkin false)
+
+def DB.warm (n : Nat) (db : DB) : DB :=
+  let held := db.raw
+  let (db1, taken) := DB.warmTake n db []
+  { DB.warmReturn taken db1 with raw := held }
 
 /-- weakref callback → `_finalize_fairy(None, rec, pool, ref, …, transaction_was_reset=False)`.
     The Connection object and its transaction objects no longer exist: canonical empty state. -/
@@ -602,8 +614,8 @@ def Conn.step (c : Conn) : Op → Conn × Res
   | .exitExc h => c.exit h true
   | .invalidate => c.invalidate
   | .arm p k => ({ c with db := { c.db with faults := c.db.faults ++ [(p, k)] } }, .ok)
-  | .warm n => ({ c with db := c.db.warm n }, .ok)
-  | .connect => (Conn.connect c.db, .ok)
+  | .warm n => ({ c with db := DB.warm n c.db }, .ok)
+  | .connect => (Conn.connect c.gc.db, .ok)
   | .gc => (c.gc, .ok)
   | .autocommit => c.setAutocommit
 
